@@ -111,17 +111,19 @@ func (f *form) atoms(set map[string]bool) {
 type svKind int
 
 const (
-	svUnknown      svKind = iota
-	svLazy                // an expression not looked at yet (local variable, argument)
-	svMsg                 // the TaskmanMessage being handled
-	svStatus              // the Mesos task status being handled (or its address)
-	svState               // its state
-	svTaskIdObj           // its TaskID
-	svTaskId              // the string value of its TaskID
-	svReason              // its reason
-	svReasonStr           // the name of its reason
-	svRosterLookup        // the roster entry with the task id of the status (nil if none)
-	svKillCall            // calls.Kill(<task id of the status>, ..)
+	svUnknown           svKind = iota
+	svLazy                     // an expression not looked at yet (local variable, argument)
+	svMsg                      // the TaskmanMessage being handled
+	svStatus                   // the Mesos task status being handled (or its address)
+	svState                    // its state
+	svTaskIdObj                // its TaskID
+	svTaskId                   // the string value of its TaskID
+	svReason                   // its reason
+	svReasonStr                // the name of its reason
+	svRosterLookup             // the roster entry with the task id of the status (nil if none)
+	svKillCall                 // calls.Kill(<task id of the status>, ..)
+	svReconcileImplicit        // calls.Reconcile(calls.ReconcileTasks(nil))
+	svReconcileExplicit        // calls.Reconcile(<anything else>)
 	svNil
 	svConst // a mesos.TASK_x / mesos.REASON_x constant
 	svStr
@@ -351,9 +353,30 @@ func (w *symWalk) val(e ast.Expr, env *senv) sval {
 			}
 		}
 	case *ast.CallExpr:
+		// a helper of this package that just returns an expression: read through
+		if fd := w.pkg.callee(v, w.recvType); fd != nil && w.depth < w.maxDepth && len(fd.Body.List) == 1 {
+			if ret, ok := fd.Body.List[0].(*ast.ReturnStmt); ok && len(ret.Results) == 1 {
+				w.depth++
+				r := w.val(ret.Results[0], w.bindArgs(fd, v, env))
+				w.depth--
+				if r.kind != svUnknown {
+					return r
+				}
+			}
+		}
 		sel, ok := v.Fun.(*ast.SelectorExpr)
 		if !ok {
 			return unk
+		}
+		if id, ok := sel.X.(*ast.Ident); ok && id.Name == "calls" && sel.Sel.Name == "Reconcile" {
+			if len(v.Args) == 1 {
+				if in, ok := unparen(v.Args[0]).(*ast.CallExpr); ok && len(in.Args) == 1 {
+					if isel, ok := in.Fun.(*ast.SelectorExpr); ok && isel.Sel.Name == "ReconcileTasks" && w.val(in.Args[0], env).kind == svNil {
+						return sval{kind: svReconcileImplicit}
+					}
+				}
+			}
+			return sval{kind: svReconcileExplicit}
 		}
 		if id, ok := sel.X.(*ast.Ident); ok && id.Name == "calls" && sel.Sel.Name == "Kill" && len(v.Args) >= 1 {
 			if w.val(v.Args[0], env).kind == svTaskId {
@@ -657,7 +680,60 @@ func (w *symWalk) calls(n ast.Node, pc *form, env *senv) {
 	if n == nil {
 		return
 	}
+	called := map[ast.Expr]bool{}
 	ast.Inspect(n, func(x ast.Node) bool {
+		if c, ok := x.(*ast.CallExpr); ok {
+			called[c.Fun] = true
+		}
+		return true
+	})
+	ast.Inspect(n, func(x ast.Node) bool {
+		// a function or method of this package used as a VALUE (returned, stored, passed on as a
+		// handler): its body runs whenever the value is called - walked like a closure
+		if e, ok := x.(ast.Expr); ok && !called[e] && w.depth < w.maxDepth {
+			var fd *ast.FuncDecl
+			switch v := e.(type) {
+			case *ast.SelectorExpr:
+				if _, bound := env.get(v.Sel.Name); !bound {
+					fd = w.pkg.callee(&ast.CallExpr{Fun: v}, w.recvType)
+				}
+			case *ast.Ident:
+				if _, bound := env.get(v.Name); !bound && v.Obj == nil {
+					fd = w.pkg.callee(&ast.CallExpr{Fun: v}, w.recvType)
+				}
+			}
+			if fd != nil {
+				fenv := (&senv{}).child()
+				w.depth++
+				w.walk(fd.Body.List, pc, fenv)
+				w.depth--
+				return false
+			}
+		}
+		if fl, ok := x.(*ast.FuncLit); ok {
+			// a closure: its body is walked like a block; what it assigns of the enclosing function's
+			// variables is state that outlives one run of it - nobody knows its value
+			cenv := env.child()
+			ast.Inspect(fl.Body, func(y ast.Node) bool {
+				switch a := y.(type) {
+				case *ast.AssignStmt:
+					if a.Tok != token.DEFINE {
+						for _, l := range a.Lhs {
+							if id, ok := l.(*ast.Ident); ok && id.Name != "_" {
+								cenv.bind(id.Name, sval{kind: svUnknown, expr: id})
+							}
+						}
+					}
+				case *ast.IncDecStmt:
+					if id, ok := a.X.(*ast.Ident); ok {
+						cenv.bind(id.Name, sval{kind: svUnknown, expr: id})
+					}
+				}
+				return true
+			})
+			w.walk(fl.Body.List, pc, cenv.child())
+			return false
+		}
 		c, ok := x.(*ast.CallExpr)
 		if !ok {
 			return true
